@@ -93,6 +93,11 @@ class StepExecutor(RtExecutor):
             st.events.append(("is_no_op", b))
             from symex import B
             return B(b)
+        base = re.sub(r"::<[^()]*>$", "", f)
+        last = base.rsplit("::", 1)[-1]
+        if last in self.bodies and last not in ("process_commands", "next_state", Executor.short(body).rsplit("::", 1)[-1]) and len(st.frames) < 3 \
+                and (base.startswith("ActorModel::<") or base == last or "::" + last in base and not base.startswith("<")):
+            return ("enter", last, args)
         return super().call(st, body, t)
 
     def root(self, v):
@@ -100,9 +105,38 @@ class StepExecutor(RtExecutor):
         return self.origin(v)
 
 
-def _run(text, setup):
+def helpers(mir_text):
+    """other (non-closure) functions defined in src/actor/model.rs: followed when the step code calls them"""
+    res = {}
+    for f in split_functions(mir_text):
+        hdr = f.split("\n", 1)[0]
+        m = re.match(r"^fn (?:actor::)?model::<impl at src/actor/model\.rs[^>]*>::((?:\w+::)*\w+)\(", hdr)
+        if m and "{closure" not in hdr.split("(", 1)[0]:
+            name = m.group(1).rsplit("::", 1)[-1]
+            if name not in ("next_state", "process_commands", "actions", "init_states", "properties", "new", "is_no_op", "is_no_op_with_timer"):
+                res[name] = f
+    # functions nested inside the step functions are printed with their bare name
+    called = set()
+    for fn in ("next_state", "process_commands"):
+        t = find(mir_text, fn) or ""
+        called |= set(re.findall(r"= ([a-z_][a-z0-9_]*)(?:::<[^()]*>)?\(", t))
+    for name in called:
+        defs = [f for f in split_functions(mir_text) if re.match(rf"^fn {name}\(", f)]
+        if len(defs) == 1 and name not in res and not name.startswith("is_no_op"):
+            res[name] = defs[0]
+    return res
+
+
+def _run(text, setup, extra=None):
     body = parse_body(text)
-    ex = StepExecutor({Executor.short(body): body})
+    bodies = {Executor.short(body): body}
+    for nm, t in (extra or {}).items():
+        if nm not in bodies:
+            try:
+                bodies[nm] = parse_body(t)
+            except Unsupported:
+                pass
+    ex = StepExecutor(bodies)
     ex.job_types, ex.depth_idx = [], None
     heads = sorted(h for h in loop_heads(body) if not body.blocks[h].cleanup)
     ex.loop_havoc = {h: _assigned(body, _natural_loop(body, h)) for h in heads}
@@ -121,7 +155,7 @@ def _target_origin(ex, heap, v):
     return ex.origin(v)
 
 
-def obligations(mir_text):
+def obligations(mir_text, model_state_rs=None):
     res = []
 
     def add(ob, ok, g, **kw):
@@ -139,7 +173,15 @@ def obligations(mir_text):
             v = ("opaque", f"param.{nm}")
             st.locals[p] = st.alloc(("ref", st.alloc(v)) if nm != "action" else v)
 
-    body, ex, outs, heads = _run(text, setup_ns)
+    hist_idx = None
+    if model_state_rs:
+        m = re.search(r"pub struct ActorModelState<[^{]*\{(.*?)\n\}", model_state_rs, re.S)
+        if m:
+            fields = [mm.group(1) for mm in re.finditer(r"^\s*(?:pub(?:\([a-z]+\))? )?(\w+)\s*:", m.group(1), re.M)]
+            if "history" in fields:
+                hist_idx = fields.index("history")
+    hl = helpers(mir_text)
+    body, ex, outs, heads = _run(text, setup_ns, hl)
     n_h = {"on_msg": 0, "on_timeout": 0, "on_random": 0}
     n_crash = n_drop = n_none = 0
     for i, o in enumerate(outs):
@@ -192,6 +234,19 @@ def obligations(mir_text):
                 between = names_[k + 1:kp]
                 if h[0] == "on_msg":
                     add(f"{tagp}: Deliver: record_msg_in runs after the handler and before the commands; the envelope is consumed exactly once", "hook" in between and names_.count("on_deliver") == 1 and "on_deliver" in between, g)
+                    hooks = [e for e in evs[k + 1:kp] if e[0] == "hook"]
+                    if hooks and hist_idx is not None:
+                        hret = hooks[0][2]
+                        installed = False
+                        for key, cell in st.handles.items():
+                            if isinstance(key, tuple) and len(key) == 3 and key[0] == "proj" and key[2] == ("field", hist_idx) and st.heap.get(key[1]) == succ:
+                                installed = installed or ex.origin(st.heap[cell]).startswith(hret[1] + "/downcast:Some")
+                        if installed:
+                            add(f"{tagp}: Deliver: the history returned by record_msg_in is installed in the successor", True, g)
+                        else:
+                            dvs = [v for key, v in st.handles.items() if isinstance(key, tuple) and len(key) == 2 and key[0] == "discr" and st.heap.get(key[1]) == hret]
+                            r, _ = _check([], g, *[dv == 1 for dv in dvs])  # the hook returned Some(history) on this path, or its result was never looked at
+                            add(f"{tagp}: Deliver: the history returned by record_msg_in is installed in the successor", r == z3.unsat, g)
                 elif h[0] == "on_timeout":
                     add(f"{tagp}: Timeout: the fired timer is cancelled before the commands are processed", between.count("timers_cancel") == 1, g)
                 else:
@@ -219,7 +274,7 @@ def obligations(mir_text):
             v = ("opaque", f"param.{nm}")
             st.locals[p] = st.alloc(("ref", st.alloc(v)) if nm in ("self", "state") else v)
 
-    body2, ex2, outs2, heads2 = _run(text, setup_pc)
+    body2, ex2, outs2, heads2 = _run(text, setup_pc, hl)
     kinds = set()
     for i, o in enumerate(outs2):
         st = o.st
